@@ -51,14 +51,7 @@ impl HasKey<paseto_core::version::Secret> for V1 {
     type Key = SecretKey;
 
     fn decode(bytes: &[u8]) -> Result<SecretKey, PasetoError> {
-        use rsa::pkcs1::DecodeRsaPrivateKey;
-
-        let key = if let Ok(key) = rsa::RsaPrivateKey::from_pkcs1_der(bytes) {
-            key
-        } else {
-            let s = str::from_utf8(bytes).map_err(|_| PasetoError::InvalidKey)?;
-            rsa::RsaPrivateKey::from_pkcs1_pem(s).map_err(|_| PasetoError::InvalidKey)?
-        };
+        let key = super::decode_rsa_private_key(bytes)?;
 
         if key.n().bits() != 2048 {
             return Err(PasetoError::InvalidKey);
